@@ -56,7 +56,7 @@ func (ds *defaultSpreaderPipeline) spread(ctx context.Context, w io.Writer, root
 	return errc
 }
 
-func (ds *defaultSpreaderPipeline) worker(ctx context.Context, wg *sync.WaitGroup, roots <-chan *Node, _ chan<- error) {
+func (ds *defaultSpreaderPipeline) worker(ctx context.Context, wg *sync.WaitGroup, roots <-chan *Node, errc chan<- error) {
 	defer wg.Done()
 	for {
 		select {
@@ -69,8 +69,15 @@ func (ds *defaultSpreaderPipeline) worker(ctx context.Context, wg *sync.WaitGrou
 
 			verifPoint("spread.recv")
 			ds.Lock()
-			ds.spreadBranch(root)
+			err := ds.spreadBranch(root)
 			ds.Unlock()
+			if err != nil {
+				select {
+				case errc <- err:
+				default: // another worker already reported a write error
+				}
+				return
+			}
 		}
 	}
 }
